@@ -218,6 +218,22 @@ theorem device_classification (v : Val) :
       | ok r => right; right; exact ⟨r, by simp, rfl, trivial⟩
       | error e => left; simp
 
+/-- (e) An internal address built from ANY text renders (`str()` is its `raw`) to text that parses back to the
+same internal address: `raw` is `"i-"` + a non-empty stripped rest, and stripping is idempotent. -/
+theorem iga_reparses (s r : Str) (h : igaParse (.str s) = .ok r) : igaParse (.str r) = .ok r :=
+  igaParse_of_raw r (igaParse_str_raw s r h)
+
+/-- … in particular the internal addresses `parse_device_group_address` returns for text. -/
+theorem device_internal_reparses (s r : Str) (h : parseDevice (.str s) = .ok (.iga r)) :
+    igaParse (.str r) = .ok r := by
+  rcases device_classification (.str s) with h' | ⟨raw, h', _⟩ | ⟨r', h', hi, _⟩
+  · rw [h] at h'; cases h'
+  · rw [h] at h'; cases h'
+  · rw [h] at h'
+    injection h' with h'; injection h' with h'
+    subst h'
+    exact iga_reparses s r hi
+
 /-! ### non-vacuity: concrete, non-trivial instances -/
 
 example : gaParse (.str (gaRender .long 2563)) = .ok 2563 := by decide
@@ -233,5 +249,6 @@ example : gaParse (.str [51, 50, 47, 48, 47, 48]) = .error .parse := by decide  
 example : gaParse (.int 65536) = .error .parse ∧ gaParse (.int (-1)) = .error .parse := by decide
 example : parseDevice (.str [48]) = .error .parse := by decide                -- "0": broadcast
 example : parseDevice (.str [105, 45, 120]) = .ok (.iga [105, 45, 120]) := by decide
+example : igaParse (.str [73, 95, 32, 120, 32]) = .ok [105, 45, 120] := by decide   -- "I_ x " -> "i-x"
 
 end XknxVerif.Props.C01
